@@ -53,6 +53,8 @@ def rules_C03(ctx):
 
 def rules_C04(ctx):
     ctx.take_ts(["R1", "P2", "P3", "P4", "unclassified", "solver"])
+    # a write into a buffer other handles (threads) can read is a data race: writes require proved uniqueness
+    ctx.take_ts(["R-contract.Modifiable", "R-contract.Unique", "R-contract.realloc", "R-contract.set_len"])
     r_api.rule_send_sync(ctx)
     r_api.rule_witnesses(ctx)
 
@@ -92,6 +94,9 @@ def rules_C18(ctx):
 def rules_C01(ctx):
     r_text.rule_T1(ctx)
     ctx.take_ts(["R-contract.kind="])
+    # writes go only to exclusively owned storage: otherwise an edit of one handle changes what the
+    # handles sharing its buffer read back
+    ctx.take_ts(["R-contract.Modifiable", "R-contract.Unique", "R-contract.realloc", "R-contract.set_len"])
     r_text.rule_T3(ctx)
     r_text.rule_T4(ctx)
     r_text.rule_T5(ctx)
@@ -157,6 +162,8 @@ def rules_C08(ctx):
 
 def rules_C09(ctx):
     r_reach.rules_C09(ctx)
+    # the amount handed to reserve is the real growth (an inflated amount spills inline text to the heap)
+    r_growth.rule_reserve_amount(ctx)
     # integers: the requested capacity is exactly the digit count (C14 proves digit count = text length)
     r_num.rule_into_repr(ctx)
 
